@@ -1,42 +1,585 @@
 package main
 
 import (
+	"encoding/json"
+	"flag"
 	"fmt"
 	"os"
+	"path/filepath"
+	"sort"
+	"strings"
+	"time"
 
-	"golang.org/x/tools/go/packages"
 	"golang.org/x/tools/go/ssa"
-	"golang.org/x/tools/go/ssa/ssautil"
 )
 
+func usage() {
+	fmt.Fprintln(os.Stderr, `usage:
+  govc check <Cnn> [--tier quick|thorough] [--repo DIR] [--verif DIR] [--func KEY] [-v]
+  govc dump <funckey> [--repo DIR]
+  govc list [--repo DIR]                      (contracts and the properties they serve)`)
+	os.Exit(2)
+}
+
 func main() {
-	cfg := &packages.Config{Mode: packages.LoadAllSyntax, Dir: "/repo", BuildFlags: []string{"-tags=verif"}}
-	pkgs, err := packages.Load(cfg, os.Args[2:]...)
-	if err != nil {
-		panic(err)
+	if len(os.Args) < 2 {
+		usage()
 	}
-	prog, spkgs := ssautil.AllPackages(pkgs, ssa.NaiveForm|ssa.GlobalDebug)
-	prog.Build()
-	for _, p := range spkgs {
-		for _, m := range p.Members {
-			if f, ok := m.(*ssa.Function); ok && f.Name() == os.Args[1] {
-				f.WriteTo(os.Stdout)
+	switch os.Args[1] {
+	case "check":
+		os.Exit(cmdCheck(os.Args[2:]))
+	case "dump":
+		os.Exit(cmdDump(os.Args[2:]))
+	case "list":
+		os.Exit(cmdList(os.Args[2:]))
+	case "replay":
+		os.Exit(cmdReplay(os.Args[2:]))
+	default:
+		usage()
+	}
+}
+
+func hasProp(ps []string, p string) bool {
+	for _, x := range ps {
+		if x == p {
+			return true
+		}
+	}
+	return false
+}
+
+func splitArgs(args []string) (pos []string, flags []string) {
+	for i := 0; i < len(args); i++ {
+		a := args[i]
+		if strings.HasPrefix(a, "-") {
+			flags = append(flags, a)
+			if !strings.Contains(a, "=") && a != "-v" && i+1 < len(args) && !strings.HasPrefix(args[i+1], "-") {
+				flags = append(flags, args[i+1])
+				i++
+			}
+		} else {
+			pos = append(pos, a)
+		}
+	}
+	return
+}
+
+func cmdDump(args []string) int {
+	pos, fl := splitArgs(args)
+	fs := flag.NewFlagSet("dump", flag.ExitOnError)
+	repo := fs.String("repo", "/repo", "")
+	verif := fs.String("verif", "/verif", "")
+	fs.Parse(fl)
+	if len(pos) < 1 {
+		usage()
+	}
+	v, err := NewVerifier(*repo, *verif)
+	if err != nil {
+		fmt.Fprintln(os.Stderr, err)
+		return 2
+	}
+	f := v.fnByKey[pos[0]]
+	if f == nil {
+		fmt.Fprintln(os.Stderr, "no such function; candidates:")
+		var ks []string
+		for k := range v.fnByKey {
+			if strings.Contains(k, pos[0]) {
+				ks = append(ks, k)
 			}
 		}
-		for _, m := range p.Members {
-			if t, ok := m.(*ssa.Type); ok {
-				ms := prog.MethodSets.MethodSet(t.Type())
-				_ = ms
-				for _, tt := range []interface{}{t} {
-					_ = tt
+		sort.Strings(ks)
+		for _, k := range ks {
+			fmt.Fprintln(os.Stderr, "  ", k)
+		}
+		return 2
+	}
+	f.WriteTo(os.Stdout)
+	loops := computeLoops(f)
+	for h, li := range loops {
+		fmt.Printf("loop %d: head block %d, %d blocks\n", li.ord, h.Index, len(li.body))
+	}
+	sites := v.callSites(f)
+	var lines []string
+	for in, s := range sites {
+		lines = append(lines, fmt.Sprintf("%s: %s", v.fset.Position(in.Pos()), strings.Join(s, " ")))
+	}
+	sort.Strings(lines)
+	for _, l := range lines {
+		fmt.Println("call site", l)
+	}
+	return 0
+}
+
+func cmdList(args []string) int {
+	_, fl := splitArgs(args)
+	fs := flag.NewFlagSet("list", flag.ExitOnError)
+	repo := fs.String("repo", "/repo", "")
+	verif := fs.String("verif", "/verif", "")
+	fs.Parse(fl)
+	v, err := NewVerifier(*repo, *verif)
+	if err != nil {
+		fmt.Fprintln(os.Stderr, err)
+		return 2
+	}
+	var ks []string
+	for k := range v.specs.Funcs {
+		ks = append(ks, k)
+	}
+	sort.Strings(ks)
+	for _, k := range ks {
+		fc := v.specs.Funcs[k]
+		st := "ok"
+		if v.fnByKey[k] == nil && !fc.Trusted {
+			st = "UNRESOLVED"
+		}
+		fmt.Printf("%-70s %-20s trusted=%v %s\n", k, strings.Join(fc.Props, ","), fc.Trusted, st)
+	}
+	for _, e := range v.specs.Errors {
+		fmt.Println("SPEC ERROR:", e)
+	}
+	return 0
+}
+
+// ---------- check ----------
+
+type KnownFinding struct {
+	Property   string `json:"property"`
+	Obligation string `json:"obligation"`
+	Witness    string `json:"witness"`
+	Status     string `json:"status"` // open | fixed
+	Commit     string `json:"commit,omitempty"`
+	What       string `json:"what"`
+}
+
+type oblReport struct {
+	Name     string   `json:"obligation"`
+	Func     string   `json:"function"`
+	Kind     string   `json:"kind"`
+	Where    string   `json:"where"`
+	Clause   string   `json:"clause,omitempty"`
+	Queries  int      `json:"queries"`
+	Status   string   `json:"status"`
+	Solvers  []string `json:"solvers,omitempty"`
+	TimeS    float64  `json:"solver_time_s"`
+}
+
+func cmdCheck(args []string) int {
+	t0 := time.Now()
+	pos, fl := splitArgs(args)
+	fs := flag.NewFlagSet("check", flag.ExitOnError)
+	tier := fs.String("tier", "", "quick|thorough")
+	repo := fs.String("repo", "/repo", "")
+	verif := fs.String("verif", "/verif", "")
+	only := fs.String("func", "", "restrict to one function key (debug; no evidence written)")
+	verbose := fs.Bool("v", false, "")
+	keep := fs.Bool("keep", false, "keep all SMT files")
+	fs.Parse(fl)
+	if len(pos) != 1 {
+		usage()
+	}
+	prop := pos[0]
+	if *tier == "" {
+		*tier = os.Getenv("VERIF_TIER")
+	}
+	if *tier == "" {
+		*tier = "quick"
+	}
+	seed := 0
+	fmt.Sscanf(os.Getenv("VERIF_SEED"), "%d", &seed)
+	timeoutS := 10
+	if *tier == "thorough" {
+		timeoutS = 60
+	}
+
+	v, err := NewVerifier(*repo, *verif)
+	if err != nil {
+		fmt.Fprintln(os.Stderr, "govc: load failed:", err)
+		return 2
+	}
+	v.tier = *tier
+	if len(v.specs.Errors) > 0 {
+		for _, e := range v.specs.Errors {
+			fmt.Fprintln(os.Stderr, "govc: spec error:", e)
+		}
+		return 2
+	}
+	workDir := filepath.Join(*verif, "work", prop)
+	os.RemoveAll(workDir)
+	os.MkdirAll(workDir, 0o755)
+
+	// functions under contract for this property
+	var keys []string
+	for k, fc := range v.specs.Funcs {
+		if hasProp(fc.Props, prop) && !fc.Trusted && !fc.NoVerify {
+			keys = append(keys, k)
+		}
+	}
+	sort.Strings(keys)
+	var undecided []string
+	var results []*FuncResult
+	var allQ []*Query
+	var obls []*Obl
+	trusted := map[string]bool{}
+	inlined := map[string]bool{}
+	for _, k := range keys {
+		if *only != "" && k != *only {
+			continue
+		}
+		fc := v.specs.Funcs[k]
+		f := v.fnByKey[k]
+		if f == nil || f.Blocks == nil {
+			undecided = append(undecided, fmt.Sprintf("func=%s reason=contract key does not resolve to a function with a body", k))
+			continue
+		}
+		variants := []*FuncContract{fc}
+		if *tier == "thorough" {
+			if tc, ok := v.specs.Thor[k]; ok && hasProp(tc.Props, prop) {
+				variants = append(variants, tc)
+			}
+		}
+		for vi, vc := range variants {
+			r := v.VerifyFunc(f, vc)
+			if vi > 0 {
+				r.Key += "[thorough]"
+				for _, o := range r.Obls {
+					o.Name = strings.Replace(o.Name, k+"/", k+"[thorough]/", 1)
+				}
+			}
+			results = append(results, r)
+			for _, u := range r.Undecided {
+				undecided = append(undecided, fmt.Sprintf("func=%s reason=%s", r.Key, u))
+			}
+			for t := range r.Ctx.trusted {
+				trusted[t] = true
+			}
+			for t := range r.Ctx.inlined {
+				inlined[t] = true
+			}
+			for _, o := range r.Obls {
+				if o.Props != nil && !hasProp(o.Props, prop) {
+					continue
+				}
+				obls = append(obls, o)
+				allQ = append(allQ, o.Queries...)
+			}
+		}
+	}
+	for _, e := range v.specs.Errors {
+		fmt.Fprintln(os.Stderr, "govc: spec error:", e)
+	}
+	if len(v.specs.Errors) > 0 {
+		return 2
+	}
+	solveAll(allQ, workDir, timeoutS, 16)
+
+	// vacuity: each function must have at least one reachable return
+	var vacuous []string
+	ncover := 0
+	var coverQs []*Query
+	for _, r := range results {
+		if len(r.Undecided) > 0 {
+			continue
+		}
+		for i, cq := range r.Covers {
+			if i >= 8 {
+				break
+			}
+			coverQs = append(coverQs, cq)
+		}
+	}
+	solveCovers(coverQs, workDir, 16)
+	ncover = len(coverQs)
+	for _, r := range results {
+		if len(r.Undecided) > 0 || len(r.Covers) == 0 {
+			continue
+		}
+		reach := len(r.Covers) > 8
+		for i, cq := range r.Covers {
+			if i >= 8 {
+				break
+			}
+			if cq.Status != "unsat" {
+				reach = true
+			}
+		}
+		if !reach {
+			vacuous = append(vacuous, r.Key)
+		}
+	}
+
+	// verdicts
+	known := loadKnown(filepath.Join(*verif, "known_findings.json"))
+	var reports []oblReport
+	byBackend := map[string]int{}
+	discharged, total := 0, 0
+	solverTime, maxTime := 0.0, 0.0
+	nViol := 0
+	exit := 0
+	var samples []map[string]interface{}
+	replayDir := filepath.Join(*verif, "replays", prop)
+	os.MkdirAll(replayDir, 0o755)
+	sort.SliceStable(obls, func(i, j int) bool { return obls[i].Name < obls[j].Name })
+	for _, o := range obls {
+		total++
+		ok := true
+		var failQ *Query
+		rep := oblReport{Name: o.Name, Func: o.Fn, Kind: o.Kind, Clause: o.Src, Queries: len(o.Queries)}
+		if len(o.Queries) > 0 {
+			rep.Where = o.Queries[0].Ctx.posStr(o.Pos)
+		}
+		ss := map[string]bool{}
+		for _, q := range o.Queries {
+			rep.TimeS += q.TimeS
+			solverTime += q.TimeS
+			if q.TimeS > maxTime {
+				maxTime = q.TimeS
+			}
+			switch q.Status {
+			case "unsat":
+				byBackend[q.Solver]++
+				ss[q.Solver] = true
+			case "trivial":
+				byBackend["syntactic"]++
+				ss["syntactic"] = true
+			default:
+				ok = false
+				if failQ == nil {
+					failQ = q
+				}
+			}
+		}
+		rep.Solvers = sortedKeys(ss)
+		if ok {
+			discharged++
+			rep.Status = "discharged"
+			if len(samples) < 3 && len(o.Queries) > 0 && o.Queries[0].Status == "unsat" {
+				q := o.Queries[0]
+				samples = append(samples, map[string]interface{}{"obligation": o.Name, "where": rep.Where, "path": q.Trace, "goal": q.Goal, "assumptions_on_path": len(q.PC), "clause": o.Src})
+			}
+		} else {
+			rep.Status = "FAILED(" + failQ.Status + ")"
+			kf := matchKnown(known, prop, o.Name)
+			replayPath := filepath.Join(replayDir, sanitize(o.Name)+".json")
+			found := writeReplay(v, replayPath, prop, o, failQ, rep.Where)
+			if kf != nil && kf.Status == "open" {
+				fmt.Printf("KNOWN-FINDING: property=%s %s -- %s\n", prop, o.Name, kf.What)
+			} else {
+				nViol++
+				exit = 1
+				suffix := ""
+				if !found {
+					suffix = " no-failing-input-found"
+				}
+				fmt.Printf("VIOLATION property=%s replay=%s obligation=%s at %s%s\n", prop, replayPath, o.Name, rep.Where, suffix)
+			}
+		}
+		reports = append(reports, rep)
+		if *verbose {
+			fmt.Printf("  %-12s %s  (%d queries, %.2fs) %s\n", rep.Status, o.Name, len(o.Queries), rep.TimeS, rep.Where)
+			for _, q := range o.Queries {
+				if q.Status != "unsat" && q.Status != "trivial" {
+					fmt.Printf("      %s path=%s file=%s\n", q.Status, q.Trace, q.File)
 				}
 			}
 		}
 	}
-	for f := range ssautil.AllFunctions(prog) {
-		if f.Name() == os.Args[1] && f.Pkg != nil {
-			fmt.Println("==", f.String())
-			f.WriteTo(os.Stdout)
+	for _, u := range undecided {
+		fmt.Printf("UNDECIDED property=%s %s\n", prop, u)
+	}
+	for _, f := range vacuous {
+		fmt.Printf("VACUOUS property=%s func=%s (no return point reachable under the stated preconditions)\n", prop, f)
+	}
+	// expected obligations guard
+	expected := loadExpected(filepath.Join(*verif, "expected_obligations.json"))
+	var missing []string
+	if exp, ok := expected[prop]; ok && *only == "" {
+		have := map[string]bool{}
+		for _, o := range obls {
+			have[o.Name] = true
+		}
+		for _, n := range exp {
+			if strings.Contains(n, "[thorough]") && *tier != "thorough" {
+				continue
+			}
+			if !have[n] {
+				missing = append(missing, n)
+			}
+		}
+		for _, m := range missing {
+			fmt.Printf("MISSING-OBLIGATION property=%s %s (generated on the reference tree, not generated now)\n", prop, m)
 		}
 	}
+	if os.Getenv("GOVC_WRITE_EXPECTED") != "" && *only == "" {
+		var names []string
+		for _, o := range obls {
+			names = append(names, o.Name)
+		}
+		sort.Strings(names)
+		expected[prop] = names
+		b, _ := json.MarshalIndent(expected, "", " ")
+		os.WriteFile(filepath.Join(*verif, "expected_obligations.json"), b, 0o644)
+	}
+
+	wall := time.Since(t0).Seconds()
+	fmt.Printf("govc: property=%s tier=%s functions=%d obligations=%d discharged=%d queries=%d undecided=%d violations=%d wall=%.1fs\n",
+		prop, *tier, len(results), total, discharged, len(allQ), len(undecided), nViol, wall)
+	if *only != "" {
+		return exit
+	}
+	// evidence
+	level := "proof"
+	expl := ""
+	if len(undecided) > 0 || len(vacuous) > 0 || total == 0 || len(missing) > 0 {
+		level = "other"
+		expl = fmt.Sprintf("level dropped from proof: undecided=%d vacuous=%d missing_obligations=%d obligations=%d", len(undecided), len(vacuous), len(missing), total)
+	}
+	var fkeys []string
+	for _, r := range results {
+		fkeys = append(fkeys, r.Key)
+	}
+	var tb []string
+	tb = append(tb, "govc itself (SSA semantics, SMT encoding, path enumeration) and the solvers z3-new 5.1.0 / z3 4.8.12 / cvc5 1.0.3")
+	tb = append(tb, sortedKeys(trusted)...)
+	for k := range inlined {
+		tb = append(tb, "inlined (verified as part of the caller): "+k)
+	}
+	sort.Strings(tb[1:])
+	var assum []string
+	assum = append(assum, sortedKeys(v.assumptions)...)
+	assum = append(assum, "A-NILEMPTY: nil and empty slices are identified (s == nil is len(s) == 0)")
+	assum = append(assum, "A-SEQ: slices, arrays and strings are mathematical sequences (value semantics); element stores are accepted only into sequences allocated in the same function")
+	assum = append(assum, "A-MEM: 0 <= len(s) <= 2^47 for every sequence")
+	assum = append(assum, "A-SEQUENTIAL: every function is verified as a single goroutine; sync.Mutex operations are no-ops; blocking is not modelled")
+	for _, ax := range v.axiomTerms {
+		assum = append(assum, "axiom "+ax.name+": "+ax.src)
+	}
+	ev := map[string]interface{}{
+		"property_id": prop,
+		"tier":        *tier,
+		"seed":        seed,
+		"level":       level,
+		"wall_s":      wall,
+		"violations":  nViol,
+		"assumptions": assum,
+		"coverage": map[string]interface{}{
+			"obligations":              total,
+			"discharged":               discharged,
+			"checker_cmd":              fmt.Sprintf("bin/govc check %s --tier %s (go/ssa naive form of /repo working tree -> path VCs -> z3-new | z3 | cvc5, %ds per query)", prop, *tier, timeoutS),
+			"trusted_base":             tb,
+			"functions_under_contract": fkeys,
+			"queries":                  len(allQ),
+			"by_backend":               byBackend,
+			"solver_time_s":            map[string]float64{"sum": round3(solverTime), "max_single_query": round3(maxTime)},
+			"cover_queries":            ncover,
+			"vacuous_functions":        vacuous,
+			"undecided":                undecided,
+			"missing_obligations":      missing,
+			"obligation_list":          reports,
+			"samples":                  samples,
+			"explanation":              expl,
+			"evaluations":              len(allQ),
+			"distinct_nontrivial":      countNonTrivial(allQ),
+			"rule":                     "one SMT query per (path, obligation); non-trivial = not closed syntactically by the generator",
+			"bounded_standins":         []string{},
+		},
+	}
+	os.MkdirAll(filepath.Join(*verif, "evidence"), 0o755)
+	b, _ := json.MarshalIndent(ev, "", " ")
+	os.WriteFile(filepath.Join(*verif, "evidence", prop+".json"), b, 0o644)
+	if !*keep && exit == 0 {
+		os.RemoveAll(workDir)
+	}
+	return exit
 }
+
+func countNonTrivial(qs []*Query) int {
+	seen := map[string]bool{}
+	for _, q := range qs {
+		if q.Status != "trivial" {
+			seen[q.Obl.Name+"|"+q.Trace] = true
+		}
+	}
+	return len(seen)
+}
+
+func round3(f float64) float64 { return float64(int(f*1000)) / 1000 }
+
+func sanitize(s string) string {
+	r := strings.NewReplacer("/", "__", "*", "", "(", "", ")", "", "$", "_", "#", "-", "@", "_at_", " ", "_", ">", "_", "~", "_")
+	return r.Replace(s)
+}
+
+func loadKnown(path string) []KnownFinding {
+	var k struct {
+		Findings []KnownFinding `json:"findings"`
+	}
+	b, err := os.ReadFile(path)
+	if err != nil {
+		return nil
+	}
+	json.Unmarshal(b, &k)
+	return k.Findings
+}
+
+func matchKnown(ks []KnownFinding, prop, obl string) *KnownFinding {
+	for i := range ks {
+		if ks[i].Property == prop && ks[i].Obligation == obl {
+			return &ks[i]
+		}
+	}
+	return nil
+}
+
+func loadExpected(path string) map[string][]string {
+	m := map[string][]string{}
+	b, err := os.ReadFile(path)
+	if err != nil {
+		return m
+	}
+	json.Unmarshal(b, &m)
+	return m
+}
+
+// writeReplay stores the failed obligation, solver output and (when found) a counterexample; returns whether a
+// failing input was found and reproduced on the real code.
+func writeReplay(v *Verifier, path, prop string, o *Obl, q *Query, where string) bool {
+	rp := map[string]interface{}{
+		"property":      prop,
+		"obligation":    o.Name,
+		"function":      o.Fn,
+		"kind":          o.Kind,
+		"where":         where,
+		"clause":        o.Src,
+		"path":          q.Trace,
+		"solver_status": q.Status,
+		"solver_output": q.Output,
+		"goal":          q.Goal,
+		"smt_file":      q.File,
+	}
+	found := tryReplay(v, o, q, rp)
+	rp["failing_input_found"] = found
+	b, _ := json.MarshalIndent(rp, "", " ")
+	os.WriteFile(path, b, 0o644)
+	return found
+}
+
+func cmdReplay(args []string) int {
+	if len(args) < 1 {
+		usage()
+	}
+	b, err := os.ReadFile(args[0])
+	if err != nil {
+		fmt.Fprintln(os.Stderr, err)
+		return 2
+	}
+	var rp map[string]interface{}
+	json.Unmarshal(b, &rp)
+	fmt.Printf("obligation: %v\nfunction:   %v\nwhere:      %v\nclause:     %v\nsolver:     %v\n%v\n", rp["obligation"], rp["function"], rp["where"], rp["clause"], rp["solver_status"], rp["solver_output"])
+	if t, ok := rp["replay_test"].(string); ok && t != "" {
+		return runReplayTest(rp)
+	}
+	fmt.Println("no-failing-input-found: the replay file carries the failed obligation and the solver output only")
+	return 1
+}
+
+var _ = ssa.NaiveForm
